@@ -1,5 +1,5 @@
 #!/usr/bin/env python3
-"""seedtable.py: writes seeded/TABLE.md (round 2 and 3 of the independent seeded changes) from the
+"""seedtable.py: writes seeded/TABLE.md (rounds 2 to 4 of the independent seeded changes) from the
 seeds' notes, the regression matrix seeded/RESULTS.txt and the history notes below, and copies the
 history into each seed's meta.json."""
 import json, os, re
@@ -37,13 +37,29 @@ H = {
  'r3-C19-2': "initially missed: no string with TAB / CR in the programs; added",
  'r3-C20-1': "initially missed: no concurrent calls; added the C20 race pass with a functional cross-check (sampled)",
  'r3-C20-2': "initially missed: no panic / error value that is a Go error wrapping a lisp error; added both modes",
+ # round 4
+ 'r4-C01-2': "initially missed: no function applied through apply; added (apply f (list)) and a zero-parameter closure whose body is a def to the scoping family",
+ 'r4-C02-1': "initially missed: no closure followed by a shadowing let in tail position of the same frame; added (keepfn! oracle)",
+ 'r4-C03-1': "initially missed: the far deadline was only an hour away; added fifty years and the year 9999",
+ 'r4-C03-2': "initially missed: no Go error that wraps a lisp error; added the boomw! builtin",
+ 'r4-C07-1': "initially missed: the self-expanding macro of the alphabet called list and + while expanding; added macros expanding to their own quoted call (spin, ping/pong)",
+ 'r4-C09-1': "initially missed: no Go builtin that calls a lisp function back as update function; added callf",
+ 'r4-C11-1': "initially missed: needs more than 64 macro expansions in flight, out of reach of 3 threads; the race pass got a crowd of 384 (thorough 1024) evaluations compared with their solo results (sampled)",
+ 'r4-C12-1': "initially missed: macros were only named mac; the same macros are now also defined under the names try and fn",
+ 'r4-C14-1': "initially missed: no integers above 2^53; added 2^53, 2^53+1, maxint, maxint-1",
+ 'r4-C16-1': "initially missed: closers were only appended or replaced at the end; every closer is now inserted at every token boundary",
+ 'r4-C17-1': "initially missed: no route reads the module form by form (the route of that name was a same-line do); added forms-read-one-by-one",
+ 'r4-C17-2': "initially missed: every text was read under one module name only; added a second read under another name",
+ 'r4-C19-2': "initially missed: no program whose expansion changes between two evaluations of one call site; added 4",
+ 'r4-C20-1': "initially missed: no two closures of one function literal; added the closures-of-one-literal family",
+ 'r4-C20-2': "initially missed: the wrapped lisp error had no position; it has one now",
 }
 res = {}
 for l in open('/verif/seeded/RESULTS.txt'):
     n = l.split(' | ')[0].strip()
     res[n] = [m.group(1) for m in re.finditer(r'\| (C\d\d) rc=1', l)]
 out = []
-for rnd in ('r2', 'r3'):
+for rnd in ('r2', 'r3', 'r4'):
     out.append(f"\n**Round {rnd[1]}**\n\n| seed | what it does (first line of the author's notes) | reported by (own-property quick check, regression matrix) | history |\n|---|---|---|---|")
     for d in sorted(os.listdir('/verif/seeded')):
         if not d.startswith(rnd + '-'): continue
